@@ -197,9 +197,11 @@ def r9_45(ctx):
         raise ShapeNotRecognised("find_and_play_best_move: %d calls of calculate_time_slice" % len(calls))
     bb, t = calls[0]
     args = ex.call_args(bb)
-    bp = [i for i in range(1, b.arg_count + 1) if b.local_ty(i) == "&mut board::BoardState"]
+    # the board parameter, borrowed shared or exclusively: what matters is whose field is read
+    bp = [i for i in range(1, b.arg_count + 1) if b.local_ty(i) in ("&mut board::BoardState", "&board::BoardState", "board::BoardState")]
     col = strip_refs(args[1])
-    ok = col[0] == "field" and col[2] == "to_move" and col[1][0] == "mem" and bp and col[1][1] == bp[0]
+    base = strip_refs(col[1]) if col[0] == "field" else None
+    ok = col[0] == "field" and col[2] == "to_move" and len(bp) == 1 and base in (("arg", bp[0]),) + ((col[1],) if col[1][0] == "mem" and col[1][1] == bp[0] else ())
     ctx.ob("find_and_play_best_move:slice-for-side-to-move", ok, b.where(b.term_loc(bb)),
            "colour argument is `%s`; must be the side to move of the board being searched" % show_expr(args[1], b))
     recv = strip_refs(args[0])
